@@ -1029,3 +1029,9 @@ V("C10", "benign_running_task_renamed", "benign", None, (Z, """        running_t
 V("C12", "benign_instantiator_renamed", "benign", None, (Z, "        instantiator = copy.deepcopy if deepcopy else lambda o: o", "        make = copy.deepcopy if deepcopy else lambda o: o"),
   (Z, "                new_object = instantiator(param_obj.default)\n                shared_parameters._shared_cache[param_key] = new_object", "                new_object = make(param_obj.default)\n                shared_parameters._shared_cache[param_key] = new_object"),
   (Z, "        else:\n            new_object = instantiator(param_obj.default)\n\n        dict_[key] = new_object", "        else:\n            new_object = make(param_obj.default)\n\n        dict_[key] = new_object"))
+
+V("C04", "flush_sort_only_for_several_parameters", "fire", "R04.h", (Z, "            for watcher in sorted(watchers, key=lambda w: w.precedence):\n                events = [", "            if len(event_dict) > 1:\n                watchers.sort(key=lambda w: w.precedence)\n            for watcher in watchers:\n                events = ["))
+V("C04", "flush_first_event_wins", "fire", "R04.*", (Z, "            event_dict = OrderedDict([((event.name, event.what), event)\n                                      for event in self_._events])", "            event_dict = OrderedDict([((event.name, event.what), event)\n                                      for event in reversed(self_._events)])"))
+V("C03", "flush_single_pass", "fire", "R03.g", (Z, "        while self_._events:\n            event_dict = OrderedDict(", "        if self_._events:\n            event_dict = OrderedDict("))
+V("C08", "sync_refs_event_index_by_object", "fire", "R08.e", (Z, "            if not any((dep.owner is e.obj and dep.name == e.name) for dep in deps for e in events) and not is_async:", "            changed = {id(e.obj): e.name for e in events}\n            if not any(changed.get(id(dep.owner)) == dep.name for dep in deps) and not is_async:"))
+V("C08", "benign_sync_refs_any_reordered", "benign", None, (Z, "            if not any((dep.owner is e.obj and dep.name == e.name) for dep in deps for e in events) and not is_async:", "            if not is_async and not any((e.name == dep.name and e.obj is dep.owner) for e in events for dep in deps):"))
